@@ -50,7 +50,8 @@ func (x *Exec) evalInstr(st *State, fr *Frame, b *ssa.BasicBlock, idx int, v ssa
 		ln := x.val(st, fr, in.Len).(T)
 		if isByte(et) {
 			if n, ok := isLit(ln); ok && n <= 64 {
-				fr.env[in] = T{S: smtStrLit(make([]byte, n)), So: SString}
+				z := make([]byte, n)
+				fr.env[in] = T{S: smtStrLit(z), So: SString, Segs: []Seg{{Kind: "const", Lit: z, S: smtStrLit(z)}}}
 			} else {
 				fr.env[in] = app(SString, "zeros", ln)
 			}
@@ -582,6 +583,9 @@ func (x *Exec) sliceOp(st *State, fr *Frame, in *ssa.Slice) Val {
 				h := IntLit(int64(len(av.Elems)))
 				if hi != nil {
 					h = *hi
+				}
+				if l.S == "0" && h.S == fmt.Sprint(len(av.Elems)) {
+					return r
 				}
 				return app(SString, "str.substr", r, l, Sub(h, l))
 			}
